@@ -10,6 +10,8 @@ import glob
 for f in sorted(glob.glob(os.path.join(HERE, "..", "checks", "*.manifest.json"))):
     pid = os.path.basename(f).split(".")[0].upper()
     M.CHECKS[pid] = json.load(open(f))
+for pid, add in getattr(M, "ADDITIONS", {}).items():
+    M.CHECKS[pid] = dict(M.CHECKS[pid], text=M.CHECKS[pid]["text"] + add)
 served = sorted(M.CHECKS)
 for e in M.ENGINES:
     e["serves_properties"] = served
